@@ -369,3 +369,43 @@ B("c10-revert-index-clamp", ["C10"], "annotate.py", "        index = max(bisect(
 B("c01-edition-not-escaped", ["C01"], "tokenizers.py", '        edition = "|".join(re.escape(e) for e in edition_names)\n', '        edition = "|".join(e.replace(".", "") for e in edition_names)\n', rule="R-C01-8")
 B("c01-variations-dropped", ["C01"], "tokenizers.py", "                edition_variations = [\n                    k for k, v in variations.items() if v == edition_name\n                ]\n", "                edition_variations = []\n", rule="R-C01-9")
 B("c01-journals-not-loaded", ["C01"], "tokenizers.py", "    for source_key, source_cluster in JOURNALS.items():\n", "    for source_key, source_cluster in list(JOURNALS.items())[:10]:\n", rule="R-C01-9")
+B("c18-includes-year-no-end", ["C18"], "models.py", "            and (self.end is None or self.end.year >= year)\n", "", rule="R-C18-6")
+B("c18-includes-year-none-crash", ["C18"], "models.py", "            and (self.start is None or self.start.year <= year)\n", "            and self.start.year <= year\n", rule="R-C18-6")
+
+# ------------------------------------------------------------------ round-2 seeds
+P("seed-C02-3", ["C02"], "seeded/C02-3/patch.diff")
+P("seed-C02-4", ["C02"], "seeded/C02-4/patch.diff")
+P("seed-C03-3", ["C03"], "seeded/C03-3/patch.diff")
+P("seed-C03-4", ["C03"], "seeded/C03-4/patch.diff")
+P("seed-C04-3", ["C04"], "seeded/C04-3/patch.diff")
+P("seed-C04-4", ["C04"], "seeded/C04-4/patch.diff")
+P("seed-C06-3", ["C06"], "seeded/C06-3/patch.diff")
+P("seed-C06-4", ["C06"], "seeded/C06-4/patch.diff")
+P("seed-C07-3", ["C07"], "seeded/C07-3/patch.diff")
+P("seed-C07-4", ["C07"], "seeded/C07-4/patch.diff")
+P("seed-C08-3", ["C08"], "seeded/C08-3/patch.diff")
+P("seed-C08-4", ["C08"], "seeded/C08-4/patch.diff")
+P("seed-C09-3", ["C09"], "seeded/C09-3/patch.diff")
+P("seed-C09-4", ["C09"], "seeded/C09-4/patch.diff")
+P("seed-C10-3", ["C10"], "seeded/C10-3/patch.diff")
+P("seed-C10-4", ["C10"], "seeded/C10-4/patch.diff")
+P("seed-C11-3", ["C11"], "seeded/C11-3/patch.diff")
+P("seed-C11-4", ["C11"], "seeded/C11-4/patch.diff")
+P("seed-C12-3", ["C12"], "seeded/C12-3/patch.diff")
+P("seed-C12-4", ["C12"], "seeded/C12-4/patch.diff")
+P("seed-C13-3", ["C13"], "seeded/C13-3/patch.diff")
+P("seed-C13-4", ["C13"], "seeded/C13-4/patch.diff")
+P("seed-C14-3", ["C14"], "seeded/C14-3/patch.diff")
+P("seed-C14-4", ["C14"], "seeded/C14-4/patch.diff")
+P("seed-C15-3", ["C15"], "seeded/C15-3/patch.diff")
+P("seed-C15-4", ["C15"], "seeded/C15-4/patch.diff")
+P("seed-C16-3", ["C16"], "seeded/C16-3/patch.diff")
+P("seed-C16-4", ["C16"], "seeded/C16-4/patch.diff")
+P("seed-C17-3", ["C17"], "seeded/C17-3/patch.diff")
+P("seed-C17-4", ["C17"], "seeded/C17-4/patch.diff")
+P("seed-C18-3", ["C18"], "seeded/C18-3/patch.diff")
+P("seed-C18-4", ["C18"], "seeded/C18-4/patch.diff")
+P("seed-C19-3", ["C19"], "seeded/C19-3/patch.diff")
+P("seed-C19-4", ["C19"], "seeded/C19-4/patch.diff")
+P("seed-C20-3", ["C20"], "seeded/C20-3/patch.diff")
+P("seed-C20-4", ["C20"], "seeded/C20-4/patch.diff")
